@@ -986,4 +986,42 @@ def matchExactTree : Rx.Regex → OpRes (Option (List Str))
           if inner.length = 0 then pure (some [])
           else matchRegex (.mk op flags rune inner)
 
+/-! ## `RewriteFields`: the prologue of `case *Call:` in the wildcard expansion
+
+`template := CloneExpr(expr).(*Call)`, the descent `for len(call.Args) > 0 { arg, ok :=
+call.Args[0].(*Call); if !ok { break }; call = arg }`, the test `len(call.Args) == 0` and the
+`switch expr := call.Args[0].(type)`. (The rest of `RewriteFields` has no inventoried site; its
+total model is `Model/Fields.lean`, C12.) -/
+
+def sRFAssert : Site := ("SelectStatement.RewriteFields", "assert", "CloneExpr(expr).(*Call)")
+def sRFArgs0 : Site := ("SelectStatement.RewriteFields", "index", "call.Args[0]")
+
+/-- `x.(*Call)` with comma-ok. -/
+def asCall : Expr → Option (Str × List Expr)
+  | .call n a => some (n, a)
+  | _ => none
+
+/-- The descent to the innermost call; `.err` = fuel exhausted (the tree is finite: any fuel above
+its depth suffices). -/
+def innerCallLoop : Nat → Str → List Expr → OpRes (Str × List Expr)
+  | 0, _, _ => .err "RewriteFields: out of fuel".toList
+  | fuel + 1, name, args =>
+    if args.length > 0 then do
+      let a0 ← idx sRFArgs0 args 0
+      match asCall a0 with
+      | some (n', a') => innerCallLoop fuel n' a'
+      | none => pure (name, args)
+    else pure (name, args)
+
+/-- The prologue on a field expression that is a `*Call`: `none` = "this field value is not a
+wildcard" (`len(call.Args) == 0`), `some (name, arg)` = innermost call name and its first argument. -/
+def rewriteFieldsCallHead (fuel : Nat) (e : Expr) : OpRes (Option (Str × Expr)) := do
+  let c ← cloneExpr e
+  let (name, args) ← assertT sRFAssert (asCall c)
+  let (cn, cargs) ← innerCallLoop fuel name args
+  if cargs.length = 0 then pure none
+  else do
+    let a ← idx sRFArgs0 cargs 0
+    pure (some (cn, a))
+
 end InfluxQL.Checked
